@@ -115,7 +115,7 @@ def _run_pass(ctx, g, exe, cls, scripts, tag):
                 continue
             ix = s.edge_indexes()
             st = min(f.step, len(ix) - 1)
-            e = g.edges[ix[st]][2]
+            e = g.edict(ix[st])
             nfail += 1
             key = keyfn(cls, e, f)
             if key not in seen:
@@ -138,8 +138,8 @@ def extra_passes(ctx, g, lp, exe, cls, label):
 
     def mk(prefix, out):
         res = []
-        node_loops = [i for i in out if g.edges[i][1] == g.edges[i][0]]
-        moves = [i for i in out if g.edges[i][1] != g.edges[i][0]]
+        node_loops = [i for i in out if g.is_loop(i)]
+        moves = [i for i in out if not g.is_loop(i)]
         for c in range(0, len(node_loops), 400):
             sid[0] += 1
             res.append(Script(sid[0], list(prefix), node_loops[c:c + 400]))
@@ -152,7 +152,7 @@ def extra_passes(ctx, g, lp, exe, cls, label):
     scripts = []
     nctor = 0
     for ci in g.out[init]:
-        pk, qk, e = g.edges[ci]
+        qk = g.post_key(ci)
         if ci not in lp.verified:
             continue
         nctor += 1
@@ -160,24 +160,26 @@ def extra_passes(ctx, g, lp, exe, cls, label):
     a1 = _run_pass(ctx, g, exe, cls, scripts, "after-each-constructor")
     # pass 2: from new() + append_char chain, every transition of every single-slot state over the alphabet
     idx = {}
-    for i, (pk, qk, e) in enumerate(g.edges):
-        if e["op"] in ("new", "append_char") and i in lp.verified:
-            idx[(pk, e["op"], tok(e["args"]))] = i
+    for i in range(g.n_edges()):
+        head = g.line(i).split(" = ", 1)[0]            # "op args"
+        if (head == "new " or head.startswith("append_char ")) and i in lp.verified:
+            idx[(g.pre_key(i), head)] = i
     scripts = []
     nstates = 0
-    for qk, st in g.nodes.items():
+    for qk in list(g.nodes):
+        st = untok(qk)
         if not st["a"]["live"] or st["b"]["live"] or not g.out.get(qk):
             continue
         cur = init
         path = []
         ok = True
-        for step in [("new", [])] + [("append_char", [c]) for c in st["a"]["s"]]:
-            i = idx.get((cur, step[0], tok(step[1])))
+        for head in ["new "] + ["append_char %d" % c for c in st["a"]["s"]]:
+            i = idx.get((cur, head))
             if i is None:
                 ok = False
                 break
             path.append(i)
-            cur = g.edges[i][1]
+            cur = g.post_key(i)
         if not ok or cur != qk:
             continue
         nstates += 1
@@ -294,47 +296,59 @@ def gen_history(rnd, nops, k):
     return prog
 
 
+def opname(sl, bop):
+    return bop if sl == "a" else "b_" + bop
+
+
+def history_text(k, h):
+    return "S %d\n%s\nE\n" % (k + 1, "\n".join("%s %s = ? ?" % (opname(sl, bop), " ".join(tok(x) for x in args)) for sl, bop, args in h))
+
+
+def record(ctx, exe, cls, hist, texts):
+    """Runs the histories on one class in record mode.  Returns (events, index, fails): the NDJSON events for StrObjTrace
+    (executions separated by reset events) and, per event, (script id, step)."""
+    fails, recs, ns, nt = run_scripts(exe, [cls], texts, ctx.rundir, jobs=4, tag="rec-" + cls, env={"VH_NO_HEAP": "1", "VH_WATCHDOG": "120"})
+    bad = set(f.sid for f in fails)
+    by = {}
+    for sid, step, ret, state in recs:
+        by.setdefault(sid, []).append((step, ret, state))
+    events, index = [], []
+    for sid in sorted(by):
+        if sid in bad:
+            continue
+        events.append({"op": "reset", "sl": "a", "bop": "reset", "args": [], "ret": True, "same": False, "post": INIT})
+        index.append((sid, -1))
+        for step, ret, state in sorted(by[sid]):
+            sl, bop, args = hist[sid - 1][step]
+            ev = {"op": opname(sl, bop), "sl": sl, "bop": bop, "args": args, "ret": untok(ret), "same": state == "="}
+            if state != "=":
+                ev["post"] = untok(state)
+            events.append(ev)
+            index.append((sid, step))
+    return events, index, fails
+
+
 def trace_validation(ctx, exe):
     from vlib import trace
     rnd = random.Random(ctx.seed)
     nexec, nops = (8, 50) if ctx.tier == "quick" else (64, 200)
     hist = [gen_history(rnd, nops if k % 4 else max(50, nops // 2), k) for k in range(nexec)]
-
-    def opname(sl, bop):
-        return bop if sl == "a" else "b_" + bop
-    texts = ["S %d\n%s\nE\n" % (k + 1, "\n".join("%s %s = ? ?" % (opname(sl, bop), " ".join(tok(x) for x in args)) for sl, bop, args in h))
-             for k, h in enumerate(hist)]
+    texts = [history_text(k, h) for k, h in enumerate(hist)]
     total = 0
     maxlen = 0
     for cls in CLASSES:
-        fails, recs, ns, nt = run_scripts(exe, [cls], texts, ctx.rundir, jobs=4, tag="rec-" + cls, env={"VH_NO_HEAP": "1", "VH_WATCHDOG": "120"})
-        bad = set()
+        events, index, fails = record(ctx, exe, cls, hist, texts)
         for f in fails:
-            bad.add(f.sid)
             sl, bop, args = hist[f.sid - 1][f.step] if f.step < len(hist[f.sid - 1]) else ("a", f.op, [])
             d = re.sub(r"-?\d+", "N", f.got) if f.kind == "inv" else f.sig
             ctx.report("trace %s.%s %s%s" % (cls, bop, f.kind, ("/" + d) if d else ""),
                        "%s: recorded long-text run failed at step %d (%s %s): %r" % (cls, f.step, opname(sl, bop), json.dumps(args)[:80], f),
                        {"variant": cls, "harness_args": [cls], "script_text": texts[f.sid - 1], "failure": repr(f), "detail": f.detail})
-        by = {}
-        for sid, step, ret, state in recs:
-            by.setdefault(sid, []).append((step, ret, state))
-        events, index = [], []
-        for sid in sorted(by):
-            if sid in bad:
-                continue
-            events.append({"op": "reset", "sl": "a", "bop": "reset", "args": [], "ret": True, "same": False, "post": INIT})
-            index.append((sid, -1))
-            for step, ret, state in sorted(by[sid]):
-                sl, bop, args = hist[sid - 1][step]
-                ev = {"op": opname(sl, bop), "sl": sl, "bop": bop, "args": args, "ret": untok(ret), "same": state == "="}
-                if state != "=":
-                    ev["post"] = untok(state)
-                    maxlen = max(maxlen, len(ev["post"]["a"]["s"]), len(ev["post"]["b"]["s"]))
-                events.append(ev)
-                index.append((sid, step))
         if not events:
             continue
+        for ev in events:
+            if "post" in ev:
+                maxlen = max(maxlen, len(ev["post"]["a"]["s"]), len(ev["post"]["b"]["s"]))
         ok, pos, path = trace.validate(ctx, "StrObjTrace.tla", "StrObjTrace.cfg", events, tag=cls, timeout=1500)
         total += pos
         if not ok:
